@@ -1,5 +1,5 @@
 //! Plain data types of the reference EVM (shared with the generators; no revm types).
-use primitive_types::U256;
+pub use primitive_types::U256;
 use serde::{Deserialize, Serialize};
 use std::collections::BTreeMap;
 
@@ -92,7 +92,7 @@ pub struct Authorization {
     pub authority: Option<Address>,
 }
 
-#[derive(Clone, Copy, Debug, PartialEq, Eq, Serialize, Deserialize)]
+#[derive(Clone, Copy, Debug, PartialEq, Eq, Hash, Serialize, Deserialize)]
 pub enum TxType {
     Legacy,
     Eip2930,
@@ -131,7 +131,7 @@ pub struct Log {
     pub data: Vec<u8>,
 }
 
-#[derive(Clone, Copy, Debug, PartialEq, Eq, Serialize, Deserialize)]
+#[derive(Clone, Copy, Debug, PartialEq, Eq, Hash, Serialize, Deserialize)]
 pub enum Status {
     Success,
     Revert,
